@@ -5,6 +5,7 @@ package simpool
 
 import (
 	"reflect"
+	"unsafe"
 
 	"github.com/basecomplextech/baselibrary/verifsim/simrt"
 )
@@ -41,39 +42,36 @@ func init() {
 // GetsByType counts how many objects of each pooled type were handed out in the current run.
 var GetsByType = map[string]int64{}
 
-// Pool is a deterministic free list.
-type Pool[T any] struct {
-	newf  func() T
-	free  []T
+// core is the non-generic free list: generic code is instantiated (and race-instrumented)
+// in the importing packages, so the generic wrapper below touches no shared state itself.
+type core struct {
+	free  []any
 	isPtr bool
 	name  string
+	sync  byte // address used to model sync.Pool's Put -> Get happens-before edge for the race detector
 }
 
-// New returns a registered pool.
-func New[T any](newf func() T) *Pool[T] {
-	p := &Pool[T]{newf: newf}
-	var zero T
-	if t := reflect.TypeOf(zero); t != nil {
-		p.name = t.String()
-		if t.Kind() == reflect.Pointer {
-			p.isPtr = true
-		}
+func newCore(t reflect.Type) *core {
+	c := &core{}
+	if t != nil {
+		c.name = t.String()
+		c.isPtr = t.Kind() == reflect.Pointer
 	}
 	simrt.OnReset(func() {
-		clear(p.free)
-		p.free = p.free[:0]
+		clear(c.free)
+		c.free = c.free[:0]
 	})
-	return p
+	return c
 }
 
-func (p *Pool[T]) take() (v T, ok bool) {
+func (p *core) take() (v any, ok bool) {
 	Stats.Gets++
 	if p.name != "" && simrt.Active() {
 		GetsByType[p.name]++
 	}
 	n := len(p.free)
 	if n == 0 || !simrt.Active() {
-		return v, false
+		return nil, false
 	}
 	i := n - 1
 	switch Policy {
@@ -82,41 +80,16 @@ func (p *Pool[T]) take() (v T, ok bool) {
 	case Random:
 		i = simrt.Rand(simrt.StreamPool).IntN(n)
 	}
+	simrt.RaceAcquire(unsafe.Pointer(&p.sync))
 	v = p.free[i]
 	copy(p.free[i:], p.free[i+1:])
-	var zero T
-	p.free[n-1] = zero
+	p.free[n-1] = nil
 	p.free = p.free[:n-1]
 	Stats.Reuses++
 	return v, true
 }
 
-// Get returns a pooled value if any (no constructor call).
-func (p *Pool[T]) Get() (T, bool) {
-	v, ok := p.take()
-	if ok {
-		return v, true
-	}
-	if p.newf != nil {
-		return p.newf(), true
-	}
-	return v, false
-}
-
-// GetNew returns a pooled value or a new one; panics without constructor.
-func (p *Pool[T]) GetNew() T {
-	v, ok := p.take()
-	if ok {
-		return v
-	}
-	if p.newf == nil {
-		panic("no pool new function")
-	}
-	return p.newf()
-}
-
-// Put releases a value.
-func (p *Pool[T]) Put(v T) {
+func (p *core) put(v any) {
 	Stats.Puts++
 	if !simrt.Active() || Policy == Never {
 		return
@@ -131,5 +104,44 @@ func (p *Pool[T]) Put(v T) {
 			}
 		}
 	}
+	simrt.RaceRelease(unsafe.Pointer(&p.sync))
 	p.free = append(p.free, v)
 }
+
+// Pool is a deterministic free list.
+type Pool[T any] struct {
+	newf func() T
+	c    *core
+}
+
+// New returns a registered pool.
+func New[T any](newf func() T) *Pool[T] {
+	var zero T
+	return &Pool[T]{newf: newf, c: newCore(reflect.TypeOf(zero))}
+}
+
+// Get returns a pooled value if any, else a new one when a constructor exists.
+func (p *Pool[T]) Get() (T, bool) {
+	if v, ok := p.c.take(); ok {
+		return v.(T), true
+	}
+	if p.newf != nil {
+		return p.newf(), true
+	}
+	var zero T
+	return zero, false
+}
+
+// GetNew returns a pooled value or a new one; panics without constructor.
+func (p *Pool[T]) GetNew() T {
+	if v, ok := p.c.take(); ok {
+		return v.(T)
+	}
+	if p.newf == nil {
+		panic("no pool new function")
+	}
+	return p.newf()
+}
+
+// Put releases a value.
+func (p *Pool[T]) Put(v T) { p.c.put(v) }
